@@ -7,8 +7,10 @@ use serde_json::json;
 
 use crate::hist::ShardArgs;
 
-pub const TEMPLATES: [&str; 10] = [
+pub const TEMPLATES: [&str; 13] = [
     "plain", "<a>", "<a><b>", "<a> and <a>", "x<a>y<b>z", "<zz>", "< a>", "<a", "a>", "<<a>>",
+    // an unknown placeholder before / after / between resolvable ones
+    "<zz> then <a>", "<a> then <zz>", "<a><zz><a>",
 ];
 pub const VALUES: [&str; 8] = ["1", "<b>", "x>y", "$1", ".*", "<", "a b", "é"];
 
